@@ -30,6 +30,18 @@ type C04Case struct {
 	// History, when set, is a sequence of selections (container indexes) queried one after the
 	// other on ONE Querier before the checked full selection; every call is checked.
 	History [][]int `json:"history,omitempty"`
+	// Aliases[i] are further names of container i (the daemon lists every name of a container,
+	// e.g. "/db" and "/web/db" with legacy links); a container is still one container.
+	Aliases [][]string `json:"aliases,omitempty"`
+}
+
+func c04Ctr(c C04Case, i int) fakedocker.Container {
+	ctr := dl.Ctr(fmt.Sprintf("id%d", i), fmt.Sprintf("c%d", i), nil, c.Ctrs[i])
+	ctr.Frag = c.Frag
+	if i < len(c.Aliases) {
+		ctr.Summary.Names = append(ctr.Summary.Names, c.Aliases[i]...)
+	}
+	return ctr
 }
 
 type c04Out struct {
@@ -63,10 +75,8 @@ func permutations(n int) [][]int {
 
 func c04Run(c C04Case, order []int) ([]c04Out, error, fakedocker.Report) {
 	d := &fakedocker.Daemon{Waves: []int{len(c.Ctrs)}, Order: [][]int{order}}
-	for i, lines := range c.Ctrs {
-		ctr := dl.Ctr(fmt.Sprintf("id%d", i), fmt.Sprintf("c%d", i), nil, lines)
-		ctr.Frag = c.Frag
-		d.Containers = append(d.Containers, ctr)
+	for i := range c.Ctrs {
+		d.Containers = append(d.Containers, c04Ctr(c, i))
 	}
 	q, _ := dockerlog.NewQuerier(d)
 	it, err := q.SelectLogs(context.Background(), pcommon.Timestamp(1), pcommon.Timestamp(1<<62), logqlengine.SelectLogsParams{})
@@ -93,10 +103,8 @@ func c04Run(c C04Case, order []int) ([]c04Out, error, fakedocker.Report) {
 // checks every merged stream against the selection it was asked for.
 func c04History(c C04Case) *evid.Violation {
 	d := &fakedocker.Daemon{}
-	for i, lines := range c.Ctrs {
-		ctr := dl.Ctr(fmt.Sprintf("id%d", i), fmt.Sprintf("c%d", i), nil, lines)
-		ctr.Frag = c.Frag
-		d.Containers = append(d.Containers, ctr)
+	for i := range c.Ctrs {
+		d.Containers = append(d.Containers, c04Ctr(c, i))
 	}
 	q, _ := dockerlog.NewQuerier(d)
 	all := identity(len(c.Ctrs))
@@ -192,6 +200,7 @@ func c04Check(c C04Case) (r evid.Result) {
 			}
 		}
 	}
+	r.Class(len(c.Aliases) > 0, "containers-with-several-names")
 	r.Class(true, fmt.Sprintf("containers=%d", n))
 	r.Class(crossTie, "cross-container-tie")
 	r.Class(interleave, "interleaving")
@@ -294,6 +303,14 @@ func c04Gen(t *rapid.T) C04Case {
 		}
 	}
 	c.Frag = genFrag(t)
+	if n >= 1 && rapid.IntRange(0, 3).Draw(t, "aliases") == 0 {
+		c.Aliases = make([][]string, n)
+		for i := 0; i < n; i++ {
+			for k, m := 0, rapid.SampledFrom([]int{0, 1, 1, 2}).Draw(t, "nalias"); k < m; k++ {
+				c.Aliases[i] = append(c.Aliases[i], fmt.Sprintf("/link%d/c%d", k, i))
+			}
+		}
+	}
 	if n >= 2 && rapid.IntRange(0, 2).Draw(t, "history") == 0 {
 		calls := rapid.IntRange(1, 3).Draw(t, "history-calls")
 		for i := 0; i < calls; i++ {
